@@ -19,6 +19,5 @@ unsigned char vf_try_c(unsigned char *f, unsigned char *data) {
   return 0;
 }
 void __vf_init_globals(void);
-void h_c04_clone(void); void h_c04_retain(void);
-void m_c04_clone(void) { __vf_init_globals(); h_c04_clone(); }
-void m_c04_retain(void) { __vf_init_globals(); h_c04_retain(); }
+uint32_t bcmp(unsigned char *a, unsigned char *b, uint64_t n) { for (uint64_t i = 0; i < n; i++) if (a[i] != b[i]) return 1; return 0; }
+uint32_t memcmp(unsigned char *a, unsigned char *b, uint64_t n) { for (uint64_t i = 0; i < n; i++) if (a[i] != b[i]) return a[i] < b[i] ? (uint32_t)-1 : 1; return 0; }
